@@ -66,6 +66,9 @@ var rewriteShapes = []string{
 	`\s*$`, `a\s*$`, `^\s*$\n`, `\n*$\n\nx`, `[^ab]*$\nc`, `(\s*)$`, `\W+$`, `[\s,]+$`, `\s*\Z`, `\n*\Z`, `[^a]*\z`, `\s+$\s`, `a\n*$\nb`, `[^ab]*$`, `\s*?$`, `(?>\s*)$`, `\n+$`,
 	// atomic alternations matched right to left (RightToLeft option, lookbehind): a literal branch is then matched from its LAST character
 	`(?>cq|xa|cxa)`, `(?<=(?>cq|(x)a|cxa))$`, `(?<=b(?>cq|xa|cxa))$`, `(?>ab|cb|acb)`, `(?<=(?>ab|b|cab))x`, `(?>a|ba|ca|bca)$`,
+	// a loop over a class given by a Unicode category (no ranges of its own) in front of a class whose RANGE holds the
+	// category's members strictly inside (and the other way round): the overlap test has to look inside the range
+	`\d*[!-~]`, `(\d*)[!-~]`, `\d+[0-z]`, `\s*[\x00-\x7f]`, `\w*[!-~]x`, `\p{Lu}*[@-z]`, `\d*[^a]`, `[!-~]*\d`, `[0-z]+\p{Lu}`, `[\d]+[!-~]{1,2}`, `\p{Nd}*?[!-~]$`, `(?>\d*[!-~]|1)2`,
 	`(?<a-b>x|(?<b>x))`, `(?=(?<a-b>x|(?<b>x)))x`, `a(?<a-b>(?<b>x)*?|x)`, `(?>(?<a-b>x*?|(?<b>x)))`, `(?<b>a)?(?<a-b>x|(?<b>x))c?`, `(?<a-b>(?:x|(?<b>x))+?)`, `(?<b>a)(?<-b>x*)x`,
 }
 
